@@ -8,6 +8,11 @@ package main
 //   lateral_empty_left_header       e CROSS JOIN LATERAL (…) keeps its header when e is empty   (pre-finding F15)
 //   lateral_eq_inner / lateral_left_eq_left       LATERAL = per-left-row application
 //   recursive_eq_iterated           recursive CTE (UNION ALL) = generations computed by separate non-recursive queries
+//   cte_reference_stable            `SELECT * FROM cte` as the LAST reference of a query whose earlier references filter /
+//                                   project the CTE inside derived tables = the CTE's own query evaluated alone
+//   table_reference_stable          the same for a temporary table referenced several times
+//   subquery_over_temp_table_keeps_table_usable   after SELECT * FROM (SELECT * FROM t) AS s an UPDATE of t is visible
+//                                   in a following SELECT and DISPOSE VIEW t works
 // plus the correspondence stream `c03.rec` for recursive CTEs.
 
 import (
@@ -42,6 +47,140 @@ func lateralWitness(pr *hc.Proc, o *hc.Out) {
 	if v.FieldLen() != 3 {
 		o.Law("lateral_empty_left_header", map[string]interface{}{"setup": setup, "sql": sql,
 			"expected_header": []string{"a", "b", "ob"}, "got_header_width": v.FieldLen(), "got_rows": v.RecordLen()})
+	}
+}
+
+// cteWitness: the minimal multi-reference case, first on every run
+func cteWitness(pr *hc.Proc, o *hc.Out) {
+	setup := "DECLARE cw VIEW (n, s); INSERT INTO cw VALUES (1, 'a'), (2, 'b'), (3, 'c'), (4, 'd');"
+	if _, err := pr.Exec(setup); err != nil {
+		o.Law("law_sql_error", err.Error())
+		return
+	}
+	defer pr.DisposeTable("cw")
+	alone := "SELECT n, s FROM cw"
+	for _, sql := range []string{
+		"WITH t AS (SELECT n, s FROM cw) SELECT z.* FROM (SELECT * FROM t WHERE n >= 3) AS b RIGHT JOIN t AS z ON FALSE",
+		"WITH t AS (SELECT n, s FROM cw) SELECT z.* FROM (SELECT s, n FROM t) AS b RIGHT JOIN t AS z ON FALSE",
+		"WITH t AS (SELECT n, s FROM cw), u AS (SELECT s FROM t WHERE n <> 2) SELECT z.* FROM u AS b RIGHT JOIN t AS z ON FALSE",
+	} {
+		want, w1, ok1 := qrows(pr, o, alone)
+		got, w2, ok2 := qrows(pr, o, sql)
+		if !ok1 || !ok2 {
+			continue
+		}
+		o.Count("law_checks:cte_reference_stable")
+		if w1 != w2 || canonRows(want) != canonRows(got) {
+			o.Law("cte_reference_stable", map[string]interface{}{"setup": setup, "sql": sql, "cte_query_alone": alone,
+				"rows_alone": canonRows(want), "rows_as_last_reference": canonRows(got)})
+		}
+	}
+}
+
+// tempTableWitness: a sub-select over a temporary table must leave the table usable
+func tempTableWitness(pr *hc.Proc, o *hc.Out) {
+	run := func(name string, withSubquery bool) (problems []string) {
+		setup := "DECLARE " + name + " VIEW (id, k); INSERT INTO " + name + " VALUES (0, 1);"
+		if _, err := pr.Exec(setup); err != nil {
+			return []string{"setup: " + err.Error()}
+		}
+		if withSubquery {
+			if _, err := pr.Query("SELECT * FROM (SELECT * FROM " + name + ") AS s"); err != nil {
+				problems = append(problems, "subquery: "+err.Error())
+			}
+		}
+		if _, err := pr.Exec("UPDATE " + name + " SET k = 2;"); err != nil {
+			problems = append(problems, "UPDATE: "+err.Error())
+		}
+		v, err := pr.Query("SELECT k FROM " + name)
+		if err != nil {
+			problems = append(problems, "SELECT after UPDATE: "+err.Error())
+		} else if v.RecordLen() != 1 || hc.EncVal(hc.ViewCell(v, 0, 0)) != "I2" {
+			problems = append(problems, "UPDATE not visible: SELECT k returns "+canonRows(viewRows(v))+" (expected I2)")
+		}
+		if _, err := pr.Exec("DISPOSE VIEW " + name + ";"); err != nil {
+			problems = append(problems, "DISPOSE: "+err.Error())
+		}
+		return
+	}
+	o.Eval()
+	o.Count("temp_table_witness")
+	if p := run("swc", false); len(p) > 0 {
+		o.Law("law_sql_error", map[string]interface{}{"control": "DECLARE/UPDATE/SELECT/DISPOSE without a sub-select", "problems": p})
+		return
+	}
+	if p := run("sw", true); len(p) > 0 {
+		o.Law("subquery_over_temp_table_keeps_table_usable", map[string]interface{}{
+			"program": "DECLARE sw VIEW (id, k); INSERT INTO sw VALUES (0, 1); SELECT * FROM (SELECT * FROM sw) AS s; UPDATE sw SET k = 2; SELECT k FROM sw; DISPOSE VIEW sw;",
+			"problems": p})
+	}
+}
+
+func qrows(pr *hc.Proc, o *hc.Out, sql string) ([][]string, int, bool) {
+	v, err := pr.Query(sql)
+	o.Eval()
+	if err != nil {
+		o.Law("law_sql_error", map[string]interface{}{"sql": sql, "error": err.Error()})
+		return nil, 0, false
+	}
+	return viewRows(v), v.FieldLen(), true
+}
+
+// lawRefStable: a CTE (or a temporary table) read as the last reference, after earlier references were filtered /
+// projected inside derived tables, still holds what its own query (the table) holds
+func lawRefStable(x *qgen, pr *hc.Proc, o *hc.Out) {
+	g := x.g
+	x.nAlias, x.nCTE = 0, 0
+	x.ctes, x.outer = nil, nil
+	saved, so := x.enter()
+	defer func() { x.ctes, x.outer = saved, so }()
+	var mk func() *src
+	law, with, alone := "cte_reference_stable", "", ""
+	if g.Intn(4) != 0 {
+		var body *qry
+		for try := 0; try < 30; try++ {
+			body = x.query(1, false, 400)
+			if body.est <= 500 && body.cost <= 60000 {
+				break
+			}
+			body = nil
+		}
+		if body == nil {
+			return
+		}
+		def := x.subOf(body)
+		def.asCTE, def.cteName = true, x.cte()
+		x.ctes = append(x.ctes, def)
+		mk = func() *src { return x.refTo(def) }
+		with = "WITH " + def.cteName + " AS (" + sqlQuery(body) + ") "
+		alone = sqlQuery(body)
+	} else {
+		law = "table_reference_stable"
+		t := x.pickTable(400)
+		mk = func() *src { return leafOf(x, t) }
+		alone = "SELECT * FROM " + t.name
+	}
+	first := x.wrap(mk())
+	if g.Intn(4) == 0 {
+		first = x.wrap(first)
+	}
+	left := sqlSrc(first)
+	if g.Intn(3) == 0 {
+		second := x.wrap(mk())
+		left = "(" + left + " LEFT JOIN " + sqlSrc(second) + " ON FALSE)"
+	}
+	z := mk()
+	sql := with + "SELECT " + z.alias + ".* FROM " + left + " RIGHT JOIN " + sqlSrc(z) + " ON FALSE"
+	want, w1, ok1 := qrows(pr, o, alone)
+	got, w2, ok2 := qrows(pr, o, sql)
+	if !ok1 || !ok2 {
+		return
+	}
+	o.Count("law_checks:" + law)
+	o.NonTrivial(fmt.Sprintf("refstable:%s:%s:%v", law, band(len(want)), first.q.where != nil))
+	if w1 != w2 || canonRows(want) != canonRows(got) {
+		o.Law(law, map[string]interface{}{"sql": sql, "alone_sql": alone, "rows_alone": len(want), "rows_as_last_reference": len(got),
+			"tables": dumpTables(x.tables)})
 	}
 }
 
@@ -246,6 +385,16 @@ func lawStreams(g *hc.Gen, pr *hc.Proc, o *hc.Out, n int) {
 				o.Law("using_eq_on_merged", map[string]interface{}{"sql": usql, "on_sql": osql, "cpu": cpu, "tables": dumpTables([]*table{ta, tb})})
 			}
 		}
+	}
+
+	// ---------- a source referenced several times ----------
+	rounds = n / 10
+	if rounds < 6 {
+		rounds = 6
+	}
+	for i := 0; i < rounds && len(x.tables) >= 3; i++ {
+		pr.SetCPU([]int{1, 2, 4, 8}[g.Intn(4)])
+		lawRefStable(x, pr, o)
 	}
 
 	// ---------- LATERAL ----------
@@ -460,6 +609,40 @@ func recursiveCase(g *hc.Gen, pr *hc.Proc, o *hc.Out, x *qgen) {
 	}
 	o.Case(op, impl)
 	o.Count("recursive:cases")
+
+	if err == nil && v.RecordLen() <= 40 {
+		nrows := v.RecordLen()
+		mk := func() *src {
+			s := &src{kind: 'G', gname: "r", alias: x.alias(), est: nrows}
+			s.layout = []col{{s.alias, "c0", false}, {s.alias, "c1", false}}
+			return s
+		}
+		with := "WITH RECURSIVE r (c0, c1) AS (" + sqlQuery(anchor) + " UNION ALL " + stepSQL + ") "
+		x.ctes, x.outer = nil, nil
+		fq := x.multiRef(mk, nrows)
+		sql2 := with + sqlQuery(fq)
+		if v2, err2 := pr.Query(sql2); err2 != nil {
+			o.Law("recursive_sql_error", map[string]interface{}{"sql": sql2, "error": err2.Error(), "tables": dumpTables(x.tables)})
+		} else {
+			e2 := newEnc()
+			ap2 := strings.Join(e2.query(anchor), " ")
+			sp2 := strings.Join(e2.query(step), " ")
+			fp2 := strings.Join(e2.query(fq), " ")
+			o.Case(fmt.Sprintf("c03.rec %d %d %s %s %s %s", cpu, limit, e2.header(), ap2, sp2, fp2), canon(v2))
+			o.Count("recursive:" + fq.tag)
+			o.NonTrivial("rec:" + queryShape(fq, nil, 0) + "|" + band(v2.RecordLen()))
+		}
+		// the recursive table read last, after a filtered / projected earlier reference
+		first := x.wrap(mk())
+		z := mk()
+		sql3 := with + "SELECT " + z.alias + ".* FROM " + sqlSrc(first) + " RIGHT JOIN " + sqlSrc(z) + " ON FALSE"
+		if got, w, ok := qrows(pr, o, sql3); ok {
+			o.Count("law_checks:cte_reference_stable")
+			if w != 2 || "2 "+canonRows(got) != impl {
+				o.Law("cte_reference_stable", map[string]interface{}{"sql": sql3, "alone_sql": sql, "tables": dumpTables(x.tables)})
+			}
+		}
+	}
 
 	// the same by separate non-recursive queries, one per generation
 	av, err := pr.Query(sqlQuery(anchor))
